@@ -21,7 +21,7 @@ ALPHABET = {
     "fmg": [0, 1], "fmg_it": [0, 1, 2, 3], "fmg_cycle": [0, 1, 2], "extr": [0, 1, 2, 3], "maxlev": [-1, 1, 2, 3, 10], "pre": [0, 1, 2],
     "post": [0, 1, 2], "cycle": [0, 1, 2], "maxit": [0, 1, 2, 150], "norm": [0, 1, 2], "abstol": [-1.0, 0.0, 1e-8, 1e-3],
     "reltol": [-1.0, 0.0, 1e-8, 1e-3], "threads": [1, 2, 4, 16], "tfactor": [1.0, 0.5, 0.1], "strat": [0, 1], "cc": [0, 1], "cg": [0, 1],
-    "exact": [0, 1], "verbose": [0, 1, 2], "paraview": [0, 1], "gridfile": [0, 1, 2, 3, 4, 5], "ajump": [0.0, 0.858], "problem": ["g0p0a1b0", "g1p2a2b1", "g2p1a3b0", "g3p2a3b1", "g2p3a3b1", "g0p2a0b0"],
+    "exact": [0, 1], "verbose": [0, 1, 2], "paraview": [0, 1], "gridfile": [0, 1, 2, 3, 4, 5, 6], "ajump": [0.0, 0.858], "problem": ["g0p0a1b0", "g1p2a2b1", "g2p1a3b0", "g3p2a3b1", "g2p3a3b1", "g0p2a0b0"],
 }
 PAIRS = [dict(abstol=-1.0, reltol=-1.0), dict(abstol=-1.0, reltol=-1.0, maxit=3), dict(strat=0, cc=0, cg=0), dict(strat=0, cc=0), dict(strat=0, cg=0),
          dict(pre=0, post=0), dict(maxit=0, exact=1), dict(maxit=0, fmg=1), dict(aniso=2, ajump=0.0), dict(aniso=1, ajump=0.858),
